@@ -1430,7 +1430,12 @@ impl Block {
                 total_number_of_non_fee_transactions += 1;
             }
 
-            if (transaction.is_golden_ticket() || transaction.is_normal_transaction())
+            // every user-originated transaction type can pay a fee (NFT and staking
+            // transactions too): a fee that is not collected here disappears from the supply
+            if (transaction.is_golden_ticket()
+                || transaction.is_normal_transaction()
+                || transaction.transaction_type == TransactionType::Bound
+                || transaction.transaction_type == TransactionType::BlockStake)
                 && !transaction.is_atr_transaction()
             {
                 cv.total_bytes_new += transaction.get_serialized_size() as u64;
